@@ -20,6 +20,8 @@ RULE = ('plugin kinds: resource provider, decorator, logger, span processor, met
         'log_tracepoint, create_span, span.close, metric op, shutdown) raises once; non-trivial = the fault was actually reached and at '
         'least one other plugin was present'
         ' ; activation given in code as bool / int / text (on and off), a plugin whose order() raises, and every seam of 4 representative sets failing with a BaseException; seams include the loading of each plugin (constructor, is_active, order)')
+RULE_ADDED = 'rounds 3-5: loading seams (constructor, is_active, order), a plugin module that exits at import, NaN order, a plugin without a usable name, PLUGINS as a tuple'
+RULE = RULE + ' ; ' + RULE_ADDED
 ASSUMPTIONS = ['faults are Exception subclasses raised by a concrete plugin method (every reported failure is realisable)',
                'built-in plugins are switched off (one separate row loads them as shipped); a plugin whose order() fails may be skipped or placed anywhere, the rest must load in order',
                'the failing plugin\'s own later calls are don\'t-cares']
